@@ -27,7 +27,16 @@ def assemble(text, timeout=10, before=None, **simkw):
     before: a program loaded into the same (not yet started) simulation first — a load replaces what an earlier load left."""
     sim = RiscvSimulation(**simkw)
     with watchdog(timeout):
-        if before is not None:
+        if isinstance(before, (list, tuple)):
+            # a history of earlier loads, some of which may be rejected (the rejection itself is not this caller's concern)
+            for b in before:
+                try:
+                    sim.load_program(b)
+                except CaseTimeout:
+                    raise
+                except Exception:  # noqa
+                    pass
+        elif before is not None:
             sim.load_program(before)
         sim.load_program(text)
     a = Assembled()
